@@ -6,6 +6,7 @@
 import Proofs.C07_Inside
 import Proofs.C07_Poscar
 import Proofs.C07_Bounds
+import Proofs.C07_Hybrid
 namespace Atomman.C07
 open Atomman
 set_option linter.unusedSimpArgs false
@@ -441,6 +442,37 @@ theorem unit_styles_match_lammps :
     (∀ e ∈ lammpsUnitKinds, ∀ kv ∈ e.2,
       ((Gen.AtomStyles.unitStyles.find? (·.1 = e.1)).bind fun g => (g.2.find? (·.1 = kv.1)).map (·.2)) = some kv.2) ∧
     Gen.AtomStyles.forwardsUnits = true := by
+  decide +kernel
+
+/-! ## no property twice; the hybrid composition is the real one -/
+
+/-- **atom_columns_no_property_twice**: the `Atoms` column list of every accepted atom_style — hybrids of any
+    length included — names each per-atom property at most once (the table writer converts units once per list
+    entry but keys the written columns by property name: a repeated entry would be converted twice). -/
+theorem atom_columns_no_property_twice (style : String) (cols : List ColSpec) (h : atomCols style = some cols) :
+    (cols.map (·.prop)).Nodup :=
+  styleCols_props_nodup atom_base_nodup style cols h
+
+/-- the same for the `Velocities` column lists. -/
+theorem vel_columns_no_property_twice (style : String) (cols : List ColSpec) (h : velCols style = some cols) :
+    (cols.map (·.prop)).Nodup :=
+  styleCols_props_nodup vel_base_nodup style cols h
+
+/-- **hybrid_samples_agree**: for every ordered pair of sub-styles, every single sub-style and a fixed set of longer
+    hybrids, the list the real `atoms_prop_info('hybrid …')` / `velocities_prop_info('hybrid …')` returns
+    (regenerated from the source on every run, duplicates and all) is exactly what the model's `hybridCols` composes
+    from the base tables. -/
+theorem hybrid_samples_agree :
+    (∀ e ∈ Gen.AtomStyles.atomHybrids, hybridCols Gen.AtomStyles.atomStyles e.1 = some (e.2.map ofGenCol)) ∧
+    (∀ e ∈ Gen.AtomStyles.velHybrids, hybridCols Gen.AtomStyles.velStyles e.1 = some (e.2.map ofGenCol)) ∧
+    300 ≤ Gen.AtomStyles.atomHybrids.length ∧ 30 ≤ Gen.AtomStyles.velHybrids.length := by
+  decide +kernel
+
+example : hybridCols Gen.AtomStyles.atomStyles ["sphere", "peri", "charge", "dipole"] =
+    some ((["a_id", "atype", "pos", "diameter", "density", "volume", "charge", "mu"].zip
+      [["id"], ["type"], ["x", "y", "z"], ["diameter"], ["density"], ["volume"], ["q"], ["mux", "muy", "muz"]]).zip
+      [.none, .none, .kind "length", .kind "length", .kind "density", .kind "volume", .kind "charge", .kind "dipole"]
+      |>.map fun x => ⟨x.1.1, x.1.2, x.2⟩) := by
   decide +kernel
 
 end Atomman.C07
